@@ -6,6 +6,7 @@ from __future__ import annotations
 import ast
 import io
 import tokenize
+import warnings
 from pathlib import Path
 
 
@@ -13,6 +14,7 @@ def sweep_file(path: str) -> dict:
     from gverif.props import c01_replay as R
 
     out = {"path": path, "status": "visited", "violations": [], "events": 0, "objects": 0}
+    warnings.simplefilter("ignore")      # SyntaxWarning / DeprecationWarning of the analysed files are not ours
     try:
         with tokenize.open(path) as fh:
             code = fh.read()
@@ -42,6 +44,14 @@ def sweep_file(path: str) -> dict:
         viol("total", cause, f"visit raised {type(exc).__name__}: {exc} (in {where})", exc=type(exc).__name__)
         return out
     out["events"] = len(rec.ev)
+    # the recorded trace in the vocabulary of spec/EventProtocol.tla: [e, o, p, c]
+    ids: dict[int, int] = {}
+
+    def oid(o):
+        return ids.setdefault(id(o), len(ids) + 1)
+
+    out["trace"] = [[ev, oid(obj), 0 if (parent is None or obj is mod) else oid(parent), R._kind(obj) in ("module", "class")] for ev, obj, _node, parent in rec.ev]
+    out["protocol"] = sorted({"member-of-function" if cause == "member-of-function" else clause for clause, cause, _ in R.check_protocol(rec.ev, mod)})
     seen = set()
     for clause, cause, text in R.check_protocol(rec.ev, mod):
         cause = "init-local" if cause == "member-of-function" else ("none" if cause == "-" else cause)
